@@ -168,6 +168,9 @@ def analyse_unit(unit):
             where = f"{src_file}:{src_line}" if src_file else "template"
             res["undecided"].append(f"verus: {msg[:300]} ({where}; item={loc_item})")
             continue
+        if kind == "needs-decreases":
+            res["undecided"].append(f"loop without decreases clause in {loc_item} (no invariant woven for it)")
+            continue
         if kind == "RLIMIT":
             res["undecided"].append(f"rlimit exceeded in {loc_item or 'template'}")
             continue
